@@ -157,8 +157,11 @@ def run(W, chk):
                        "PROV-counter", "create", "counter <- counter + 1", "POSITION_ID_COUNTER <- %s" % o, where(e))
     ex = W.F.const_literal("farm_manager::position::helpers::EXPLICIT_POSITION_ID_PREFIX")
     au = W.F.const_literal("farm_manager::position::helpers::AUTO_POSITION_ID_PREFIX")
-    good = ex and au and ex != au and not ex.strip('"').startswith(au.strip('"')) and not au.strip('"').startswith(ex.strip('"'))
-    chk.expect(bool(good), "CONST-id-prefixes", "u-/p-", "%s vs %s" % (ex, au), "position id prefixes %s / %s can collide" % (ex, au), "")
+    if ex is None or au is None:
+        chk.skip("CONST-id-prefixes", "u-/p-", "prefix constants not found under these names (renamed / inlined); the key-agreement rules above do not need them")
+    else:
+        good = ex != au and not ex.strip('"').startswith(au.strip('"')) and not au.strip('"').startswith(ex.strip('"'))
+        chk.expect(bool(good), "CONST-id-prefixes", "u-/p-", "%s vs %s" % (ex, au), "position id prefixes %s / %s can collide" % (ex, au), "")
 
     # ---- expand
     A = W.run(fm, "execute", ("ManagePosition", ".action", "Expand"))
